@@ -18,6 +18,16 @@ def scalar_eq(a, b):
         if isinstance(a, str) and isinstance(b, str):
             return SBool(a == b)
         a = a if isinstance(a, sym.SStr) else sym.SStr.lit(a)
+        b = b if isinstance(b, sym.SStr) else sym.SStr.lit(b)
+        ta, tb = a.t, b.t
+        inj = getattr(sym._ENGINE[0], "injective", ())
+        if z3.is_app(ta) and z3.is_app(tb) and ta.num_args() == tb.num_args() > 0 and \
+                ta.decl().name() == tb.decl().name() and ta.decl().name() in inj:
+            # recorded precondition: this naming function is injective (distinct names)
+            r = SBool(True)
+            for k in range(ta.num_args()):
+                r = r & SBool(ta.arg(k) == tb.arg(k))
+            return r
         return a == b
     return num(a) == num(b)
 
@@ -26,6 +36,12 @@ def oblige_equal(run, name, a, b, kind="post", cls="input", props=None, meta=Non
                  assuming=()):
     """Emit obligations stating a == b for scalars / arrays (shape, then elements at fresh
     in-range index components; masked axes only where the mask is True)."""
+    from . import opaque
+    if isinstance(a, (list, dict, tuple, values.SList, values.SDict, opaque.Op, opaque.Cond)) or \
+            isinstance(b, (list, dict, tuple, values.SList, values.SDict, opaque.Op, opaque.Cond)):
+        run.oblige(name, opaque.veq(a, b), kind=kind, cls=cls, props=props, meta=meta, replay=replay,
+                   assuming=assuming)
+        return
     if isinstance(a, Arr) or isinstance(b, Arr):
         if not (isinstance(a, Arr) and isinstance(b, Arr)):
             run.oblige(name + ".is-array", SBool(False), kind=kind, cls=cls, props=props, meta=meta)
